@@ -12,6 +12,13 @@ theorem snapshotMsg_id (o : Opts) (m : Msg) : snapshotMsg o m = m := by
     | some d => cases m; simp_all [readAll]
   · rfl
 
+theorem harReadPost_id (m : Msg) : harReadPost m = m := by
+  unfold harReadPost
+  rw [snapshotMsg_id]
+  cases hb : m.body with
+  | none => cases m; simp_all [readAll]
+  | some d => cases m; simp_all [readAll]
+
 theorem bodyReader_snapshot (o : Opts) (m : Msg) (hc : captures o m = true) :
     bodyReader (snapshot o m) = framedBody m (m.body.getD []) := by
   simp [snapshot, hc, bodyReader, sectionOf]
